@@ -5,7 +5,13 @@ CONFIG = dict(
     level_text="",
     level_note="",
     lean_modules=["Rbgp.Accept.Props"],
-    theorems=[],
+    theorems=[
+        "Rbgp.Accept.Props.contains_iff_cover",
+        "Rbgp.Accept.Props.negotiate_mirror",
+        "Rbgp.Accept.Props.feature_iff_both",
+        "Rbgp.Accept.Props.sendmax_agrees_with_codec",
+        "Rbgp.Accept.Props.gr_negotiation_symmetric",
+    ],
     harness=dict(kind="daemon", test="event::verif_event::c16::verif_main"),
     profiles=["debug"],
     n_quick=3000, n_thorough=120000, shards=12,
@@ -201,7 +207,7 @@ def gen_malformed(r):
     base = r.pick([gen_neg, gen_contains, gen_hist])(r)
     k = r.below(7)
     if k == 0:
-        return base[: r.below(len(base))]                      # truncated
+        return base[: 1 + r.below(len(base) - 1)]              # truncated (never empty)
     if k == 1:
         return base.replace("65537", "65793", 1)               # family with bits 8..15 set
     if k == 2:
